@@ -14,6 +14,7 @@
  *                with many chunks per page can reach the page-retirement path inside the free-list bound
  */
 #include <stdlib.h>
+#define CHECK(c, msg) __CPROVER_assert((c), msg)
 #include "contracts/common.h"
 #include "contracts/allocator.h"
 
@@ -25,7 +26,20 @@ static int sba_hook_memalign(void **out, size_t align, size_t size);
 static void sba_hook_free(void *p);
 #define posix_memalign(o, a, s) sba_hook_memalign((o), (a), (s))
 #define free(p) sba_hook_free(p)
+/* s_sba_free_to_bin line 355 `chunk >= page_start && chunk < page_end` compares pointers into DIFFERENT objects (free chunks of
+ * other pages), a NULL chunk (first iteration: index == length) and page_end = page + 32 + PAGE, 32 bytes past the page:
+ * formal undefined behaviour (C11 6.5.8p5, 6.5.6p8), benign on a flat address space.  CBMC treats a failed pointer check
+ * as fatal (everything after it becomes UNKNOWN), so its pointer checks are switched off by pragma from the first
+ * occurrence of `page_end` (line 349) to the second call of aws_array_list_swap (line 366) of that function ONLY
+ * (two pushes, two pops).  The dereferences in that range are bin->free_chunks.length / bin->active_pages.length; `bin` is
+ * dereferenced under checks at lines 347 and 377.  Without checks CBMC orders pointers by (object, offset), i.e. like a
+ * flat address space in which objects do not overlap. */
+#include <aws/common/array_list.h>
+#define page_end _Pragma("CPROVER check push") _Pragma("CPROVER check disable \"pointer\"") page_end
+#define aws_array_list_swap _Pragma("CPROVER check pop") aws_array_list_swap
 #include "source/allocator_sba.c"
+#undef page_end
+#undef aws_array_list_swap
 #undef posix_memalign
 #undef free
 #include "contracts/allocator_sba.h"
@@ -39,7 +53,7 @@ static int sba_hook_memalign(void **out, size_t align, size_t size) {
     g_palign_arg = align;
     g_psize_arg = size;
     __CPROVER_assert(g_pt[SBA_NP] == NULL, "at most one page is requested per step");
-    struct sba_page_model *pg = sba_model_new_page(); /* ASSUMPTION: the OS page allocation succeeds (s_aligned_alloc's NULL result is not checked by the code) */
+    uint8_t *pg = sba_model_new_page(); /* ASSUMPTION: the OS page allocation succeeds (s_aligned_alloc's NULL result is not checked by the code) */
     g_pt[SBA_NP] = pg;
     g_pt_alive[SBA_NP] = true;
     *out = pg;
@@ -53,7 +67,6 @@ static void sba_hook_free(void *p) {
     free(p);
 }
 
-#define CHECK(c, msg) __CPROVER_assert((c), msg)
 
 /* bodies the plain harness needs (error.c / common.c are not part of the unit) */
 void aws_raise_error_private(int err) { g_last_error = err; g_raise_count++; }
@@ -116,10 +129,37 @@ void h_layout(void) {
 #define LIST_CAP_A (SBA_NP + 1) /* capacity (elements) of the pre-state lists: room for one push; growth is array_list's contract (C09) */
 #define LIST_CAP_F (SBA_NF + 1)
 
-/* parent allocator of the model: libc malloc/free, counted (DFCC havocs statics, so the harness fills the vtable itself) */
+/* parent allocator of the model: the public entry points of allocator.c over libc malloc/free, counted.  (allocator.c
+ * itself is not linked: its vtable indirection is C01's subject and only costs symbolic-execution time here.) */
 size_t g_par_acquires, g_par_releases;
-static void *par_acquire(struct aws_allocator *a, size_t n) { (void)a; g_par_acquires++; void *p = malloc(n); __CPROVER_assume(p != NULL); return p; }
-static void par_release(struct aws_allocator *a, void *p) { (void)a; g_par_releases++; free(p); }
+#ifdef SBA_NO_PARENT_CALLS
+/* step units: the lists of the pre-state have room for one more element, so the parent allocator is never called
+ * (list growth is aws_array_list's contract, C09); reaching it is a failed obligation */
+void *aws_mem_acquire(struct aws_allocator *a, size_t n) {
+    (void)a; (void)n;
+    CHECK(0, "parent allocator is not called by this step (acquire)");
+    __CPROVER_assume(0);
+    return NULL;
+}
+void aws_mem_release(struct aws_allocator *a, void *p) {
+    (void)a; (void)p;
+    CHECK(0, "parent allocator is not called by this step (release)");
+    __CPROVER_assume(0);
+}
+#else
+void *aws_mem_acquire(struct aws_allocator *a, size_t n) {
+    CHECK(a != NULL && n > 0, "parent allocator: acquire precondition");
+    g_par_acquires++;
+    void *p = malloc(n);
+    __CPROVER_assume(p != NULL); /* OOM aborts in this version of the library */
+    return p;
+}
+void aws_mem_release(struct aws_allocator *a, void *p) {
+    CHECK(a != NULL, "parent allocator: release precondition");
+    g_par_releases++;
+    free(p);
+}
+#endif
 static struct aws_allocator PARENT;
 static struct small_block_allocator S;
 #define PGB(i) ((uint8_t *)g_pt[(i)])
@@ -141,7 +181,6 @@ static size_t any_below(size_t n) {
 /* an arbitrary state of bin SBA_BIN that satisfies the invariant; every other bin is left arbitrary (never read) */
 static struct sba_bin *any_bin_state(void) {
     struct sba_bin *bin = &S.bins[SBA_BIN];
-    PARENT = (struct aws_allocator){.mem_acquire = par_acquire, .mem_release = par_release, .mem_realloc = NULL, .mem_calloc = NULL, .impl = NULL};
     S.allocator = &PARENT;
     g_par_acquires = g_par_releases = 0;
     g_last_error = 0; g_raise_count = 0;
